@@ -145,8 +145,8 @@ def kani_cmd(filters, jobs, timeout, json_out, target_dir, extra=()):
 
 
 def run_crate(group, units, jobs, mem_gb, tag, only=None):
-    """Run all harnesses of `units` (same crate, same extra environment) in one cargo-kani invocation."""
-    crate, envspec = group
+    """Run all harnesses of `units` (same crate, same extra environment, same memory class) in one cargo-kani invocation."""
+    crate, envspec, heavy = group
     crate_dir = os.path.join(HARNESS_ROOT, crate)
     env = dict(ENV)
     envtag = ""
@@ -159,8 +159,9 @@ def run_crate(group, units, jobs, mem_gb, tag, only=None):
     os.makedirs(target_dir, exist_ok=True)
     work = os.path.join(CACHE, "runs", tag)
     os.makedirs(work, exist_ok=True)
-    json_out = os.path.join(work, f"{crate}{envtag}.json")
-    logf = os.path.join(work, f"{crate}{envtag}.log")
+    cls = "-heavy" if heavy else ""
+    json_out = os.path.join(work, f"{crate}{envtag}{cls}.json")
+    logf = os.path.join(work, f"{crate}{envtag}{cls}.log")
     if os.path.exists(json_out):
         os.remove(json_out)
     # keep the lock file in step with /repo (path deps resolve against it)
@@ -401,21 +402,29 @@ def main(argv):
         return 2
     ncpu = os.cpu_count() or 4
     jobs = a.jobs or (min(8, ncpu) if a.tier == "quick" else min(14, ncpu))
-    mem_gb = 14 if a.tier == "quick" else 30
+    mem_gb = 14
     tag = f"{prop}-{a.tier}" + os.environ.get("VERIF_TARGET_SUFFIX", "")
     t0 = time.time()
-    by_crate = {}
+    # Memory classes: harnesses that ask for >= 24 GB ("heavy") run after the light ones, one cargo-kani
+    # invocation at a time, with as many CBMC processes as fit into RAM; light ones run with the full job count.
+    light, heavy = {}, {}
     for u in sel:
-        by_crate.setdefault((u.crate, u.env), []).append(u)
+        h = bool(u.mem and u.mem >= 24)
+        (heavy if h else light).setdefault((u.crate, u.env, h), []).append(u)
     runs, results = [], []
-    with cf.ThreadPoolExecutor(max_workers=len(by_crate)) as ex:
-        per = max(1, jobs // len(by_crate))
-        futs = {ex.submit(run_crate, c, us, per, mem_gb, tag): (c, us) for c, us in by_crate.items()}
-        for f in cf.as_completed(futs):
-            c, us = futs[f]
-            run = f.result()
-            runs.append(run)
-            results += interpret(run, us)
+    if light:
+        with cf.ThreadPoolExecutor(max_workers=len(light)) as ex:
+            per = max(1, jobs // len(light))
+            futs = {ex.submit(run_crate, c, us, per, mem_gb, tag): (c, us) for c, us in light.items()}
+            for f in cf.as_completed(futs):
+                c, us = futs[f]
+                run = f.result()
+                runs.append(run)
+                results += interpret(run, us)
+    for c, us in heavy.items():
+        run = run_crate(c, us, jobs, mem_gb, tag)
+        runs.append(run)
+        results += interpret(run, us)
 
     known = load_known()
     violations, inconclusive, known_hits = [], [], []
@@ -439,6 +448,12 @@ def main(argv):
                 r["verdict"] = "known"
                 continue
             log(f"  FAILED   {r['harness']}: " + "; ".join(c["description"] for c in unlisted))
+            if len(violations) >= 2:
+                # two counterexamples of this property already reproduced natively: the verdict is settled,
+                # extracting and replaying the values of every further failing harness only costs time
+                log(f"           (not replayed: {len(violations)} violations of {prop} already reproduced in this run)")
+                r["why"] = "assertion failed; not replayed because other counterexamples were already reproduced"
+                continue
             rp, reproduced, record = concrete_playback(r["unit"], r["harness"], prop)
             r["replay"] = rp
             if reproduced:
